@@ -31,9 +31,42 @@ func procs(name string) {
 type shortReader struct {
 	r  io.Reader
 	on bool
+	// eofWithData: the last bytes of the file are returned together with io.EOF (allowed by io.Reader; decompressing and
+	// network readers do it) - implemented with one byte of look-ahead
+	eofWithData bool
+	ahead       []byte
+	done        bool
 }
 
 func (s *shortReader) Read(p []byte) (int, error) {
+	if s.eofWithData {
+		if s.done {
+			return 0, io.EOF
+		}
+		if len(p) == 0 {
+			return 0, nil
+		}
+		n := copy(p, s.ahead)
+		s.ahead = s.ahead[:0]
+		if n < len(p) {
+			m, err := io.ReadFull(s.r, p[n:])
+			n += m
+			if err != nil {
+				s.done = true
+				if err == io.EOF || err == io.ErrUnexpectedEOF {
+					return n, io.EOF
+				}
+				return n, err
+			}
+		}
+		var one [1]byte
+		if m, _ := io.ReadFull(s.r, one[:]); m == 1 {
+			s.ahead = append(s.ahead, one[0])
+			return n, nil
+		}
+		s.done = true
+		return n, io.EOF
+	}
 	if s.on && len(p) > 1 {
 		switch rt.Choice("short-read", 3) {
 		case 0:
@@ -48,7 +81,8 @@ func (s *shortReader) Read(p []byte) (int, error) {
 
 type slicingPool struct {
 	*fspool.FsPool
-	on bool
+	on          bool
+	eofWithData bool
 }
 
 func (p *slicingPool) GetReader(i int64) (io.Reader, error) {
@@ -56,15 +90,17 @@ func (p *slicingPool) GetReader(i int64) (io.Reader, error) {
 	if err != nil {
 		return nil, err
 	}
-	return &shortReader{r: r, on: p.on}, nil
+	return &shortReader{r: r, on: p.on, eofWithData: p.eofWithData}, nil
 }
 
-func diffOnce(root string, slicing bool) (patch, sig []byte) {
+func diffOnce(root string, slicing bool) (patch, sig []byte) { return diffWith(root, slicing, false) }
+
+func diffWith(root string, slicing, eofWithData bool) (patch, sig []byte) {
 	target := hlib.Walk(root + "/old")
 	source := hlib.Walk(root + "/new")
 	var pb, sb bytes.Buffer
 	dctx := &pwr.DiffContext{Compression: hlib.None(), Consumer: hlib.Consumer, SourceContainer: source,
-		Pool: &slicingPool{FsPool: fspool.New(source, root+"/new"), on: slicing}, TargetContainer: target, TargetSignature: hlib.Sign(root+"/old", target)}
+		Pool: &slicingPool{FsPool: fspool.New(source, root+"/new"), on: slicing, eofWithData: eofWithData}, TargetContainer: target, TargetSignature: hlib.Sign(root+"/old", target)}
 	hlib.Must(dctx.WritePatch(context.Background(), &pb, &sb), "WritePatch")
 	return pb.Bytes(), sb.Bytes()
 }
@@ -84,7 +120,7 @@ func H_diff() {
 	p0, s0 := diffOnce(root, false)
 	rt.SchedExplore(true)
 	procs("procs2")
-	p1, s1 := diffOnce(root, rt.Param("slicing") == 1)
+	p1, s1 := diffWith(root, rt.Param("slicing") == 1, rt.Param("slicing") == 2)
 	rt.SchedExplore(false)
 	rt.Assert(len(p0) == len(p1) && rt.BytesEqual(p0, p1), "patch bytes do not depend on the schedule or the read slicing")
 	rt.Assert(len(s0) == len(s1) && rt.BytesEqual(s0, s1), "signature bytes do not depend on the schedule or the read slicing")
